@@ -37,10 +37,20 @@ func expectedIDs(req M) []string {
 
 func c01Check(c *Case) []Violation {
 	req := asM(roundTrip(c.Req))
+	if pre, ok := c.Params["after_rejected"]; ok {
+		// a request that is rejected half-way through its evaluation comes first (same process, nothing in between)
+		if o := Decide(J(pre), nil); o.Accepted {
+			stat("after_rejected_predecessor_was_accepted")
+		}
+	}
 	out := Decide(J(c.Req), scriptFromCase(c))
 	if !out.Accepted {
 		if c.Kind == "bias-sequence" {
 			stat("rejected_bias_combination(C07's subject)")
+			return nil
+		}
+		if c.Kind == "no-criterion-left" {
+			stat("rejected_without_criteria(accepted requests only)")
 			return nil
 		}
 		return []Violation{viol(c, "C01/rejected", "valid request rejected: %s", out.Err)}
@@ -92,6 +102,54 @@ func c01Run(s *Shard) {
 				}
 			}
 		})
+	}
+	// an accepted request right after a request that is rejected while its alternatives are being evaluated (at the first,
+	// a middle and the last considered alternative): nothing of the rejected one may show in the accepted one's result
+	for _, m := range allMethods {
+		for _, bad := range []int{0, 2, 4} {
+			ids := ids6[:5]
+			vals := []float64{3, 1, 2, 1, 0}
+			pre := c04Request(utilMethods[bad%3], ids, vals, ids, ids, false)
+			if m == "electreIII" || m == "majorityHeuristic" || m == "aspectEliminationHeuristic" || m == "satisfactionHeuristic" {
+				pre = rootRequest(m, false, false)
+				bad = bad % 3
+			}
+			pre2 := asM(deepCopy(pre))
+			asM(asM(asL(pre2["knownAlternatives"])[bad])["criteria"])["undeclared"] = 1.0 // a value for a criterion nobody declared
+			delete(asM(asM(asL(pre["knownAlternatives"])[bad])["criteria"]), "c1")        // a declared criterion without a value
+			for _, p := range []M{pre, M(pre2)} {
+				for _, sub := range []bool{false, true} {
+					if !s.Take() {
+						continue
+					}
+					follow := rootRequest(m, sub, false)
+					if m == "weightedSum" || m == "owa" || m == "choquetIntegral" {
+						follow = c04Request(m, []string{"x", "y"}, []float64{1, 2}, []string{"x", "y"}, []string{"y", "x"}, false)
+					}
+					run(&Case{Kind: "after-rejected", Req: follow, Params: M{"after_rejected": p}})
+				}
+			}
+		}
+	}
+	// no criterion left when the method runs (every criterion omitted), currentChoice inside / outside choseToMake
+	for _, m := range allMethods {
+		for _, sub := range []bool{false, true} {
+			for _, cc := range []string{"", "a", "b"} {
+				for _, chain := range [][]M{{bias("criteriaOmission", M{"ratio": 1.0})}, {bias("criteriaOmission", M{"ratio": 0.5}), bias("criteriaOmission", M{"ratio": 0.0, "min": 2})}} {
+					if !s.Take() {
+						continue
+					}
+					root := rootRequest(m, sub, false)
+					if cc != "" {
+						if m != "majorityHeuristic" && m != "satisfactionHeuristic" {
+							continue
+						}
+						root = withMP(root, M{"currentChoice": cc})
+					}
+					run(&Case{Kind: "no-criterion-left", Req: withBiases(root, chain)})
+				}
+			}
+		}
 	}
 	majEnumerate(s, "C01", run)
 	aeEnumerate(s, "C01", run)
